@@ -683,6 +683,13 @@ class Interp:
     def run_generator(self, frame, node):
         """Generators are run to completion and give the finite list they yield (DESIGN 2.2)."""
         out = []
+        mk = self.summaries.get("<option>yield_log")
+        if mk is not None:
+            out = mk(frame.qn)
+            if out is None:
+                out = []
+            else:
+                self.path.ghost.setdefault("ghost_state", []).append(out)
         frame.locals["__yield__"] = out
         try:
             self.exec_block(node.body, frame)
@@ -748,10 +755,17 @@ class Interp:
         if func is set and not args and self.summaries.get("<option>symbolic_sets"):
             from . import gsets
 
-            g = gsets.GSet("set%d" % len(self.path.ghost.setdefault("gsets", [])))
-            self.path.ghost["gsets"].append(g)
+            mk = self.summaries.get("<option>symbolic_sets")
+            g = mk() if callable(mk) else gsets.GSet("set%d" % len(self.path.ghost.setdefault("ghost_state", [])))
+            self.path.ghost.setdefault("ghost_state", []).append(g)
             return g
+        if isinstance(func, type) and func is not dict and issubclass(func, dict) and not args and self.summaries.get("<option>ghost_dicts") is not None:
+            return self.instantiate(func, args, kwargs)
         if isinstance(func, SFunc):
+            akey = "<sfunc>%s.<locals>.%s" % (func.frame.qn, getattr(func.node, "name", "<lambda>"))
+            ah = self.summaries.get(akey)
+            if ah is not None:
+                return ah(self, list(args), kwargs)
             rkey = "<recursive>%s.<locals>.%s" % (func.frame.qn, getattr(func.node, "name", "<lambda>"))
             rh = self.summaries.get(rkey)
             if rh is not None:
@@ -814,6 +828,8 @@ class Interp:
         return self.run_body(fr, func.node)
 
     def native(self, func, args, kwargs):
+        if any(getattr(type(a), "__pyvc_symbolic__", False) for a in list(args) + list(kwargs.values())):
+            raise Unsupported("native call of %s on a ghost object" % getattr(func, "__name__", func))
         try:
             return func(*args, **kwargs)
         except (Unsupported, Infeasible, PyRaise, _Return, _Break, _Continue):
@@ -830,6 +846,15 @@ class Interp:
                 return h(self, list(args), kwargs)
         if deep_concrete(args) and deep_concrete(kwargs) and cls.__module__ in ("builtins", "collections", "datetime"):
             return self.native(cls, args, kwargs)
+        mk = self.summaries.get("<option>ghost_dicts")
+        if mk is not None and isinstance(cls, type) and issubclass(cls, dict) and cls is not dict and not args:
+            g = mk(cls.__name__)
+            if g is not None:
+                # dict.__init__(**kwargs) stores the keys as given (it does not go through an overridden __setitem__)
+                for kk, vv in kwargs.items():
+                    g.sym_setitem(self, kk, vv)
+                self.path.ghost.setdefault("ghost_state", []).append(g)
+                return SObj(cls, cls.__name__, __payload__=g)
         # user class: __new__ then __init__, on the real sources
         new = inspect.getattr_static(cls, "__new__", None)
         obj = None
@@ -874,6 +899,8 @@ class Interp:
             out.append(self.eval(node.value, frame) if node.value is not None else None)
         else:
             it = self.eval(node.value, frame)
+            if it is out:
+                return  # the callee generator logged into the same ghost yield log
             out.extend(self.iterate(it))
 
     def x_Pass(self, node, frame):
@@ -1022,7 +1049,26 @@ class Interp:
         raise Unsupported("nonlocal statement")
 
     def x_With(self, node, frame):
-        raise Unsupported("with statement at %s:%d" % (frame.qn, node.lineno))
+        if len(node.items) != 1:
+            raise Unsupported("with statement with several items at %s:%d" % (frame.qn, node.lineno))
+        item = node.items[0]
+        mgr = self.eval(item.context_expr, frame)
+        if deep_concrete(mgr):
+            raise Unsupported("with statement over a concrete context manager at %s:%d" % (frame.qn, node.lineno))
+        v = self.call(self.getattr(mgr, "__enter__"), [])
+        if item.optional_vars is not None:
+            self.assign(item.optional_vars, v, frame)
+        try:
+            self.exec_block(node.body, frame)
+        except PyRaise as e:
+            r = self.call(self.getattr(mgr, "__exit__"), [e.exc_cls, e, None])
+            if r is True:
+                return
+            raise
+        except (_Return, _Break, _Continue):
+            self.call(self.getattr(mgr, "__exit__"), [None, None, None])
+            raise
+        self.call(self.getattr(mgr, "__exit__"), [None, None, None])
 
     # -- loops --
     def x_For(self, node, frame):
@@ -1161,6 +1207,11 @@ class Interp:
                 return f.cells[name]
             f = f.parent
         if name in frame.globals:
+            if self.summaries:
+                ov = self.summaries.get("<global>%s:%s" % (frame.globals.get("__name__", "?"), name), _MISSING)
+                if ov is not _MISSING:
+                    # proof device: a module constant generalised to an arbitrary value of its kind (stated in the contract)
+                    return ov
             return frame.globals[name]
         if hasattr(builtins, name):
             return getattr(builtins, name)
@@ -1188,6 +1239,12 @@ class Interp:
         return out
 
     def e_Dict(self, node, frame):
+        mk = self.summaries.get("<option>ghost_dicts")
+        if mk is not None and not node.keys:
+            g = mk(frame.qn)
+            if g is not None:
+                self.path.ghost.setdefault("ghost_state", []).append(g)
+                return g
         d = {}
         for k, v in zip(node.keys, node.values):
             if k is None:
@@ -2510,7 +2567,16 @@ def havoc_like(path, name, v):
     raise Unsupported("cannot havoc %s = %r" % (name, v))
 
 
-def invariant_loop(label, modifies, inv, elem=None, on_havoc=None):
+def _oblige_conjuncts(path, name, claim, kind="inv"):
+    """a conjunction is discharged conjunct by conjunct (smaller queries; same meaning)"""
+    if is_z3(claim) and z3.is_and(claim) and claim.num_args() > 1:
+        for i, cj in enumerate(claim.children()):
+            _oblige_conjuncts(path, "%s.c%d" % (name, i), cj, kind)
+        return
+    path.oblige(name, claim, kind=kind)
+
+
+def invariant_loop(label, modifies, inv, elem=None, on_havoc=None, split=False):
     """Loop contract for `for target in <symbolic sequence>` (DESIGN 2.2: init / preserve / use).
 
     inv(env, k) -> z3 Bool: invariant after k iterations, `env` maps local names to values.
@@ -2542,6 +2608,8 @@ def invariant_loop(label, modifies, inv, elem=None, on_havoc=None):
                 frame.locals[name] = havoc_like(path, name, frame.locals[name])
             else:
                 raise Unsupported("loop-modified local %s is unbound before the loop" % name)
+        for gi, g in enumerate(path.ghost.get("ghost_state", [])):
+            g.havoc("h%d_%d_%d" % (gi, len(path.taken), path.n))
         if on_havoc is not None:
             on_havoc(path)
         if leg == 0:
@@ -2549,7 +2617,7 @@ def invariant_loop(label, modifies, inv, elem=None, on_havoc=None):
             path.assume(z3.And(k >= 0, k < n))
             path.assume(inv(dict(frame.locals), k))
             if filt and not path.branch(seq.cond(k)):
-                path.oblige("%s.inv.keep" % label, inv(dict(frame.locals), k + 1), kind="inv")
+                ((lambda nm, cl, kind="inv": _oblige_conjuncts(path, nm, cl, kind)) if split else path.oblige)("%s.inv.keep" % label, inv(dict(frame.locals), k + 1), kind="inv")
                 raise PathDone()
             x = ((seq.elt_it(it, k) if getattr(seq, "elt_it", None) is not None else seq.elt(k)) if filt else seq.get(k)) if elem is None else elem(it, k)
             it.assign(node.target, x, frame)
@@ -2559,7 +2627,7 @@ def invariant_loop(label, modifies, inv, elem=None, on_havoc=None):
                 pass
             except _Break:
                 raise Unsupported("break inside a loop under contract")
-            path.oblige("%s.inv.keep" % label, inv(dict(frame.locals), k + 1), kind="inv")
+            ((lambda nm, cl, kind="inv": _oblige_conjuncts(path, nm, cl, kind)) if split else path.oblige)("%s.inv.keep" % label, inv(dict(frame.locals), k + 1), kind="inv")
             raise PathDone()
         path.assume(inv(dict(frame.locals), n))
         path.assume(n >= 0)
